@@ -88,8 +88,26 @@ fn with_one_link(t: &Tree, names: &[&str]) -> Vec<Tree> {
     out
 }
 
-fn build_std(root: &Path, t: &Tree) {
+/// remove a sandbox tree whatever modes the previous calls left (an unprivileged user cannot empty a directory it cannot write)
+fn force_remove(root: &Path) {
+    fn open_up(p: &Path) {
+        if let Ok(m) = std::fs::symlink_metadata(p) {
+            if m.is_dir() {
+                let _ = std::fs::set_permissions(p, std::fs::Permissions::from_mode(0o700));
+                if let Ok(rd) = std::fs::read_dir(p) {
+                    for e in rd.flatten() {
+                        open_up(&e.path());
+                    }
+                }
+            }
+        }
+    }
+    open_up(root);
     let _ = std::fs::remove_dir_all(root);
+}
+
+fn build_std(root: &Path, t: &Tree) {
+    force_remove(root);
     std::fs::create_dir_all(root).unwrap();
     std::fs::set_permissions(root, std::fs::Permissions::from_mode(0o755)).unwrap();
     // parents first (BTreeMap order is lexicographic: "/a" < "/a/b")
@@ -471,6 +489,6 @@ fn main() {
         out.rec(&json!({"k": "p", "tree": tree_rep, "memtree": mem0, "own": {"uid": uid, "gid": gid}, "steps": steps}));
     }
     let _ = std::env::set_current_dir("/");
-    let _ = std::fs::remove_dir_all(&sandbox);
+    force_remove(&sandbox);
     out.finish();
 }
